@@ -154,7 +154,7 @@ Aux:
 			case AmpAllowOtherKeys:
 				// ignore
 			default:
-				if !ss.Bound(Symbol(ad.Name)) {
+				if !boundHere(ss, ad.Name) {
 					ss.Let(Symbol(ad.Name), ad.Default)
 				}
 			}
@@ -167,7 +167,7 @@ Aux:
 			case AmpAllowOtherKeys:
 				// ignore
 			default:
-				if !ss.Bound(Symbol(ad.Name)) {
+				if !boundHere(ss, ad.Name) {
 					ss.Let(Symbol(ad.Name), ad.Default)
 				}
 			}
@@ -175,7 +175,7 @@ Aux:
 			asym := Symbol(ad.Name)
 			if AmpAux == asym {
 				mode = auxMode
-			} else if !ss.Bound(asym) {
+			} else if !boundHere(ss, ad.Name) {
 				ss.Let(asym, ad.Default)
 			}
 		case auxMode:
@@ -188,6 +188,13 @@ Aux:
 		}
 	}
 	return lam.BoundCall(ss, depth)
+}
+
+// boundHere returns true if the variable was bound in the scope itself and
+// not just in one of the enclosing scopes.
+func boundHere(s *Scope, name string) (has bool) {
+	_, has = s.Vars[strings.ToLower(name)]
+	return
 }
 
 // requiredCount returns the number of required parameters, those before the
